@@ -140,6 +140,51 @@ CHECKS["C14"] = dict(
          "safe-stays-safe for accepted and raised calls, exact movement, liquidation iff below 1.5x and its amounts; every edge is replayed "
          "by direct calls, 10-bar back-tests run through Actuator.run with live TWAP, each get_twap_price validated relationally by TLC")
 
+CROSS_TECH = ("TLA+ specs of every market (UniLp.tla, Aave.tla, Squeeth.tla, Deribit.tla, GmxV1.tla, GmxV2.tla) carry the property's "
+              "clauses as invariants / action properties, model-checked by TLC (BFS + simulation, DEV switches per market); TLC "
+              "behaviours replayed into the real markets under a real Broker (and through the real Actuator where bars matter), the "
+              "property's clauses decided on the real objects after every step (harness/cross.py orchestrates the five legs)")
+CHECKS["C01"] = dict(technique=CROSS_TECH, design="3/C01",
+    text="for each market type TLC explores operation sequences interleaved with bar changes; each behaviour is replayed into the real "
+         "market under a real Broker and after every step Broker.get_account_status (net value, wallet value, each market's net value) "
+         "and the market balance fields are compared with the spec's valuation of the spec state - Uniswap positions at the bar's pool "
+         "price plus pending fees (both orientations), Aave supplies minus debts, Squeeth vaults incl. a lent LP position counted once "
+         "(pool valuation), Deribit cash plus options at mark in an ETH-quoted market inside a USDC account (direct and through the "
+         "Actuator with a minutely co-market), GMX v1 GLP plus rewards and v2 GM at pool value, account quoted in USD and in WETH")
+CHECKS["C03"] = dict(technique=CROSS_TECH, design="3/C03",
+    text="TLC checks on every transition of every market specification that net value does not rise beyond wallet dust, that Uniswap "
+         "liquidity and Aave operations conserve it up to dust, that swaps lose the reported fee, that no holding is negative and no "
+         "operation pays out more than held (amount alphabets incl. 0, exact holding, holding x (1 +- eps), oversized, None); each "
+         "behaviour is replayed and the same clauses are decided on the real account (net value before/after every accepted or raised "
+         "call on the frozen status, signs of every holding, accept/reject of over-redemptions)")
+CHECKS["C04"] = dict(technique=CROSS_TECH, design="3/C04",
+    text="TLC checks Act_C04 (a rejecting Step returns the state unchanged, no action record) on every transition of every market "
+         "specification and its coverage shows each rejection cause taken; every replayed call that raises in the real code is "
+         "bracketed by deep snapshots (wallet, positions / debts / vaults / options / shares, visible order book, action log) that must "
+         "be equal; DEV switches re-create the mutate-before-check defects that were repaired")
+CHECKS["C02"] = dict(
+    technique="TLA+ spec NoLookahead.tla (which raw rows every observable of bar i is computed from; observations uninterpreted) "
+              "model-checked by TLC as a self-composition of two runs over histories sharing a prefix (MC_NoLookahead, DEV switches); "
+              "the exported history tree is run through the real Actuator for every market type, interval and script and the recorded "
+              "runs are validated by TLC with the trace spec Trace_NoLookahead",
+    design="3/C02",
+    text="TLC proves Inv_Prefix / Inv_InputsIntact / Inv_Rerun / Inv_ReadsOnlyPast for every configuration (6 market kinds x resampling "
+         "factor x 3 scripts), every common prefix and every pair of suffixes (5 bars quick, 6-7 thorough, 3 symbols); every history of "
+         "the exported tree is run twice through the real Actuator (rerun on the same input objects, every other chunk after an unrelated "
+         "backtest in the same process) and TLC validates that observations (snapshots at call time, account rows, actions, "
+         "notifications) are a function of the raw-input prefix, that deep digests of supplied and live frames are unchanged and that "
+         "the rerun reproduces every observation; corrupted records must be rejected")
+CHECKS["C19"] = dict(
+    technique="TLA+ spec Manager.tla (caller + forked workers, task queue with non-deterministic assignment, objects that carry state "
+              "between runs abstracted to their histories) model-checked by TLC over every configuration and schedule (DEV switches for "
+              "shared config markets / per-process copies / shared broker); every TLC-enumerated configuration executed by the real "
+              "BacktestManager.run (sequential in-process, forked in fresh interpreters) and compared with solo runs",
+    design="3/C19",
+    text="TLC checks for every configuration [market mix, ordered strategy kinds from a family that leaves state behind, threads 1..3] and "
+         "every task-to-worker schedule that each finished strategy's result is Run(s, CleanEnv); each configuration is run through the "
+         "real BacktestManager (forked runs repeated since the OS picks the schedule; observed schedules must be among the model's) and "
+         "every strategy's complete account history, final positions and wallet must equal those of the same strategy run alone")
+
 NOT_YET = "check not built yet in this round (see DESIGN.md section 3 for the planned spec clauses)"
 
 
